@@ -22,6 +22,7 @@ import (
 	"reflect"
 	"sort"
 	"strings"
+	"time"
 	"unicode/utf8"
 	"unsafe"
 
@@ -105,6 +106,9 @@ func genFile(s *choice.Stream, i int, allowMissing bool) fileSpec {
 	}
 	doc := func() v2kit.Doc { return docs[small[s.Draw(len(small), "doc")]] }
 	kind := s.Pick([]int{5, 3, 3, 2, 1, 2, 2, 3, 1}, "file-kind")
+	if allowMissing && s.Draw(3, "missing-file") == 0 {
+		kind = 8
+	}
 	switch kind {
 	case 0:
 		d := doc()
@@ -690,10 +694,13 @@ func runMain(c *hlib.Ctx) *hlib.Run {
 		var last *hlib.Violation
 		for try := 0; try < 3; try++ {
 			os.Remove(rj)
-			cmd := exec.Command(realBin, rargs...)
+			ctx, cancelRun := context.WithTimeout(context.Background(), 90*time.Second)
+			cmd := exec.CommandContext(ctx, realBin, rargs...)
 			var so, se bytes.Buffer
 			cmd.Stdout, cmd.Stderr = &so, &se
 			err := cmd.Run()
+			hung := ctx.Err() != nil
+			cancelRun()
 			rexit := 0
 			if ee, ok := err.(*exec.ExitError); ok {
 				rexit = ee.ExitCode()
@@ -702,6 +709,9 @@ func runMain(c *hlib.Ctx) *hlib.Run {
 			}
 			out.Counters["real_binary_executions(not_simulated)"]++
 			v := judgeOutput(so.String(), rexit, useJSON, rj, includeText, files, paths, exp, out, args, unreadable)
+			if hung {
+				v = &hlib.Violation{Oracle: "bounded-liveness", Class: "hang", Message: "the real binary did not terminate within 90 seconds"}
+			}
 			if v == nil && strings.Contains(se.String(), "panic:") {
 				v = &hlib.Violation{Oracle: "no-panic", Class: "real-binary-panic", Message: "the real binary panicked:\n" + firstLines(se.String(), 30)}
 			}
